@@ -41,8 +41,28 @@ pub enum ReadOutcome {
     Panic(String),
 }
 
+/// Stops a reader that keeps asking for bytes long after the stream has ended (a loop over a corrupted count).
+struct GuardedReader<R: Read> {
+    inner: R,
+    reads_after_eof: u64,
+}
+
+impl<R: Read> Read for GuardedReader<R> {
+    fn read(&mut self, buf: &mut [u8]) -> std::io::Result<usize> {
+        let n = self.inner.read(buf)?;
+        if n == 0 && !buf.is_empty() {
+            self.reads_after_eof += 1;
+            if self.reads_after_eof > 100_000 {
+                panic!("runaway reader: 100000 read() calls after the end of the stream @ harness guard");
+            }
+        }
+        Ok(n)
+    }
+}
+
 pub fn read_model<R: Read>(r: R) -> ReadOutcome {
     let res = catch_unwind(AssertUnwindSafe(|| {
+        let r = GuardedReader { inner: r, reads_after_eof: 0 };
         let pr = DefaultProtocolReader::new(r);
         let mut fr = FsmReader::new(Box::new(pr));
         fr.read()
